@@ -33,6 +33,19 @@ CLAIMS = {
     "C04": hist("Lean 4 proof: count word = owners in every reachable state incl. inside callbacks (invariant), per-op owner deltas; differential correspondence reading the count through every accessor after every op",
                 "Theorems over M1: each clone-style op adds exactly one owner of that block, each release removes one, conversions/borrows/gates are neutral, and the count word equals the number of owning handle values (Inv) after every op of every history. The correspondence prints the count through every accessor of every slot after every op (and inside callback scripts) for the real library and compares with the model; the monitor recomputes owners from the implementation's own slot table.",
                 "DESIGN.md §2 M1, §6 C04"),
+    "C05": dict(
+        technique="Lean 4 proof over an exact transcription of core::alloc::Layout arithmetic (request side = release side for every size/align=2^e/length/word width; fits; aligned; overflow refused) + history invariants LenInv/LayInv/LogInv giving dealloc layout = alloc layout along every history; shape-matrix and history correspondences with a tracking allocator",
+        text="Arithmetic theorems quantify over all header/element layouts, lengths and pointer widths; the history theorem C05_dealloc_layout_invariant quantifies over all finite op histories of the handle machine (every handle kind and conversion path): every dealloc event carries exactly the (size, align) of the block's alloc event, and each block is freed at most once. Tied to the code by ~11k shape x constructor x release-path cases per quick run (630k thorough, several build configurations, near-overflow lengths in child processes) and by the history correspondence comparing allocator events.",
+        design_ref="DESIGN.md §2 M2, §6 C05",
+        note=TB + " core::alloc::Layout is re-modelled (cross-checked numerically against core on every run), not verified; 16/32-bit widths are theorem-only."),
+    "C06": hist("Lean 4 proof: every constructor and every honest iterator script yields a new block with exactly the given header/elements, count 1, no input value destroyed, and for EVERY script a built result has exactly the items (runIterCtor_spec); correspondence over lengths across internal boundaries, capacities, hint regimes and the size/alignment matrix",
+                "Theorems over M3 for all memories, headers, item lists of any length and all scripts: contents, freshness, log = one alloc and no drop; dropping the fresh handle destroys each element exactly once. The correspondence runs every constructor on the real crate with identity-tracked elements (lengths 0..12, 31-33, 255, 256, 1000; capacities >= length; exact / inexact / lying hints) and, for the T: Copy constructors and every header/element size-alignment class incl. padding between header and slice, the shape-matrix harness reads the contents back.",
+                "DESIGN.md §2 M3, §6 C06", " Zero-sized element types are handled by the layout slice (refusal with a panic or correct contents), not by M3."),
+    "C11": dict(
+        technique="Lean 4 proof over the layout model: as_ptr/into_raw/OffsetArc/ArcBorrow words = data address = Deref address, heap_ptr = base, from_raw∘into_raw = id for sized/slice/dyn, for every payload layout; shape-matrix correspondence of every accessor pairing; known finding for ThinArc raw accessors",
+        text="Theorems for every payload size/align=2^e/length/word width; the ThinArc deviation (raw accessors return the block address) is proved as such with a concrete witness and claimed only as C11_thin_as_ptr_partial — it is recorded in known_findings.json and printed as KNOWN-FINDING when (and only when) the observation matches exactly. 200k accessor observations per quick run are compared with the model and with the property (address Deref yields, round trip recovers block/contents/count, handle widths and null niche).",
+        design_ref="DESIGN.md §2 M2, §6 C11, §7 F3",
+        note=TB + " Stability of addresses across clones/moves along histories is the history model's (M1) handle-value semantics (HV.off never changes for a block)."),
     "C07": hist("Lean 4 proof: every iterator script (any lie, panic at any call) ends built-initialised or panicked with at most one abandoned/freed block and no double drop; Clone/callback panics leave the state as modelled; invariant preserved; correspondence with panic injection at every call",
                 "Theorems over M3/M1 quantify over all scripts (reported lengths and hints changing between calls, panic position) and all callback scripts; the correspondence injects a panic at every k-th call and every (reported, actual) pair with difference <= 2 on the real library, with identity-tracked payloads and a tracking allocator detecting double drops, uninitialised reads and leaks.",
                 "DESIGN.md §2 M3, §6 C07"),
